@@ -107,33 +107,24 @@ func Drive(args []string) int {
 	outs := make([]*childOutcome, len(jobs))
 	var wg sync.WaitGroup
 	for ji, j := range jobs {
+		if j.race {
+			continue
+		}
 		wg.Add(1)
 		go func(ji int, j job) {
 			defer wg.Done()
-			if j.race {
-				// race children use all cores themselves: run them alone
-				for k := 0; k < par; k++ {
-					sem <- struct{}{}
-				}
-				defer func() {
-					for k := 0; k < par; k++ {
-						<-sem
-					}
-				}()
-			} else {
-				sem <- struct{}{}
-				defer func() { <-sem }()
-			}
-			bin := self
-			nb := n
-			if j.race {
-				bin = *raceBin
-				nb = nr
-			}
-			outs[ji] = runChild(p, bin, *tier, *seed, j.batch, nb, j.race, *runDir, wall, "")
+			sem <- struct{}{}
+			defer func() { <-sem }()
+			outs[ji] = runChild(p, self, *tier, *seed, j.batch, n, false, *runDir, wall, "")
 		}(ji, j)
 	}
 	wg.Wait()
+	// race children use all cores themselves: one after the other
+	for ji, j := range jobs {
+		if j.race {
+			outs[ji] = runChild(p, *raceBin, *tier, *seed, j.batch, nr, true, *runDir, wall, "")
+		}
+	}
 
 	// merge
 	merged := &BatchResult{Property: p.ID, Cover: map[string]int64{}, SigCounts: map[string]int64{}, Max: map[string]float64{}}
@@ -380,7 +371,7 @@ func runChild(p *Prop, bin, tier string, seed int64, batch, batches int, race bo
 			cmd.Env = append(cmd.Env, "VERIF_INTENT="+intentPath)
 		}
 		if race {
-			cmd.Env = append(cmd.Env, "VERIF_RACE=1", "GORACE=halt_on_error=0 history_size=3 log_path="+filepath.Join(runDir, tag+".race"))
+			cmd.Env = append(cmd.Env, "VERIF_RACE=1", "GORACE=halt_on_error=0 exitcode=0 history_size=3 log_path="+filepath.Join(runDir, tag+".race"))
 		}
 		t0 := time.Now()
 		if err := cmd.Start(); err != nil {
